@@ -289,6 +289,7 @@ def errName : Err → String
   | .pemError => "PemError"
   | .x509 => "X509"
   | .time => "Time"
+  | .invalidOid => "InvalidOid"
   | .other s => s
 
 def sha2 : Hashes :=
